@@ -321,11 +321,6 @@ theorem portOf_shownPort (p : Nat) : portOf (shownPort p) 22 = (p : Int) := by
   unfold shownPort portOf
   split <;> simp_all
 
--- Not proved (would remove the bracket hypotheses below for scope-free literals):
---   isIPv6 h = true → '%' ∉ h → '[' ∉ h ∧ ']' ∉ h
--- (every part between colons is empty, a hextet, or a dotted-quad suffix).  With a scope id the
--- statement is false: `ipaddress` accepts any non-empty scope text without '%'.
-
 /-- **label_matches**: the text label of a report on `(h, p)` — "(gen) target:" in a multi-target
     run, "Host:" in a policy run — is `h`, `h:p` or `[h6]:p` (port shown iff it is not 22): itself a
     documented spelling of exactly `(h, p)` -/
@@ -399,6 +394,36 @@ theorem json_label_v6_not_reparsed (h : Str) (p : Nat) (hv : V6Like h) (d : Int)
   · rw [splitOn_length, List.count_append]
     have := hv.1
     simp; omega
+
+/-- **ipv6_no_brackets**: an accepted IPv6 literal without a scope id consists of hex digits, colons and
+    dots only — in particular it has no brackets (with a scope id, `ipaddress` accepts any text) -/
+theorem ipv6_no_brackets (h : Str) (hv : isIPv6 h = true) (hs : '%' ∉ h) :
+    (∀ c ∈ h, v6Char c = true) ∧ '[' ∉ h ∧ ']' ∉ h := by
+  have key : ∀ c ∈ h, v6Char c = true := by
+    unfold isIPv6 at hv
+    split at hv
+    · simp at hv
+    · rw [splitOn_no_sep '%' h hs] at hv
+      exact isIPv6Addr_chars h hv
+  exact ⟨key, fun hc => absurd (key _ hc) (by decide), fun hc => absurd (key _ hc) (by decide)⟩
+
+/-- the documented hosts: a name / IPv4 literal, or an IPv6 literal (no scope id) -/
+def DocHost (h : Str) : Prop := NameLike h ∨ (isIPv6 h = true ∧ '%' ∉ h)
+
+theorem DocHost.labelable {h : Str} (hh : DocHost h) : NameLike h ∨ (isIPv6 h = true ∧ '[' ∉ h ∧ ']' ∉ h) := by
+  rcases hh with hn | ⟨hv, hs⟩
+  · exact Or.inl hn
+  · exact Or.inr ⟨hv, (ipv6_no_brackets h hv hs).2⟩
+
+/-- **label_matches_doc**: for every documented host and every port the text label and the "Starting
+    audit of" label read back as exactly `(h, p)` -/
+theorem label_matches_doc (h : Str) (p : Nat) (hp : p < 10 ^ maxStrDigits) (hh : DocHost h) (d : Int) :
+    parseHostPort (labelText h p) 22 = .ok (h, (p : Int)) ∧ parseHostPort (labelVerbose h p) d = .ok (h, (p : Int)) :=
+  ⟨label_matches h p hp hh.labelable, label_verbose_matches h p hp hh.labelable d⟩
+
+/-- an IPv6 literal is a documented bare spelling of itself -/
+theorem spelled_ipv6 (h : Str) (hv : isIPv6 h = true) (hs : '%' ∉ h) : Spelled h h none :=
+  Spelled.v6 h ⟨(ipv6_two_colons h hv).1, (ipv6_no_brackets h hv hs).2⟩
 
 /-! ### whole runs: single target -/
 
